@@ -407,6 +407,10 @@ impl Sim {
             return_immediately: immediate,
             max_messages: max,
         };
+        let mut request = tonic::Request::new(request);
+        if self.plan.knobs.call_deadline_s > 0 {
+            request.set_timeout(Duration::from_secs(self.plan.knobs.call_deadline_s));
+        }
         let req = Req::Pull { sub: sub.to_string(), max, immediate, bg_slot };
         let invoked_us = self.now_us();
         let out = self
